@@ -554,7 +554,7 @@ def W10_requested_file(rep, flow: Flow, fqs=("mub_circuits.get_mub_circuits", "m
                 want_n, want_c = ("param", "num_qubits"), ("param", "connectivity")
                 if kind == "mub" and nk == want_n and ck == want_c:
                     rep.ok("W10", 1, nontrivial=(fq, ev[2]), sample=f"{f.qualname}: reads mub{{num_qubits}}-{{connectivity}}.txt")
-                elif kind != "mub" or {nk, ck} == {want_n, want_c} or (nk[0] == "const" or ck[0] == "const"):
+                elif kind != "mub" or {nk, ck} == {want_n, want_c}:
                     rep.finding("W10", f"{fq}:file", f"{f.module.rel} {f.qualname} (path #{pi}): the table read at {ev[2]} is {kind}{{{fmt(nk)}}}-{{{fmt(ck)}}}.txt; the request's own table is mub{{num_qubits}}-{{connectivity}}.txt")
                 else:
                     raise AnalysisError(f"{fq}: the file name read at {ev[2]} is built from {fmt(nk)[:60]} / {fmt(ck)[:60]}: whether that names the requested table cannot be decided")
@@ -582,6 +582,16 @@ def _params(k, out=None):
 
 
 # ---------------------------------------------------------------------------------------------
+class _OpaqueRequestObject:
+    """stands for an argument object of the request that is not a number or a name (compares unequal to everything)"""
+
+    def __init__(self, name):
+        self.name = name
+
+    def __repr__(self):
+        return f"<the request's `{self.name}` object>"
+
+
 def request_envs(f):
     """valid requests for an entry point, as assignments of the symbols its conditions may mention.
     yields (label, env) for every advertised (m, c) and every consistent register size"""
@@ -661,12 +671,30 @@ def G6_no_extra_rejection(rep, flow: Flow):
                         if (ev[4], label) in seen_calls:
                             continue
                         try:
-                            # only requests that actually take this path (its decisions hold for them)
-                            if not all(symeval.decision_holds(k, v, env, ce) for k, v in r.decisions.items() if k[0] != "cache-miss"):
+                            # only requests that can take this path: none of its decisions is false for them (conditions on
+                            # the content of the stabilizer are undecidable here and do not exclude the path - an advertised
+                            # pair must pass the support gate whatever the content)
+                            def may_hold(k, v):
+                                try:
+                                    return symeval.decision_holds(k, v, env, ce)
+                                except (symeval.Unknown, symeval.WouldRaise):
+                                    return True
+                            if not all(may_hold(k, v) for k, v in r.decisions.items() if k[0] != "cache-miss"):
                                 continue
                             seen_calls.add((ev[4], label))
-                            vals = [symeval.concretize(vkey(a), env, ce) for a in ev[2]]
-                            kw = {k: symeval.concretize(vkey(v), env, ce) for k, v in ev[3].items()}
+
+                            def conc(a):
+                                k = vkey(a)
+                                try:
+                                    return symeval.concretize(k, env, ce)
+                                except symeval.Unknown:
+                                    # another object of the request (the stabilizer, a circuit ...) handed to the gate: it is
+                                    # neither a qubit count nor a connectivity name; evaluated as an opaque object
+                                    if isinstance(k, tuple) and len(k) == 2 and k[0] == "param" and k not in env:
+                                        return _OpaqueRequestObject(k[1])
+                                    raise
+                            vals = [conc(a) for a in ev[2]]
+                            kw = {k: conc(v) for k, v in ev[3].items()}
                         except (symeval.Unknown, symeval.WouldRaise):
                             continue
                         try:
